@@ -49,7 +49,8 @@ from . import qltypes
 
 _BYTES_ESCAPE_RE = re.compile(b'[\\\\\'\x00-\x1f\x7e-\xff]')
 _NON_PRINTABLE_RE = re.compile(
-    r'[\u0000-\u0008\u000B\u000C\u000E-\u001F\u007F\u0080-\u009F\n]')
+    r'[\u0000-\u0008\u000B\u000C\u000E-\u001F\u007F\u0080-\u009F\n'
+    r'\u202A-\u202E\u2066-\u2069]')
 _ESCAPES = {
     b'\\': b'\\\\',
     b'\'': b'\\\'',
@@ -702,16 +703,20 @@ class EdgeQLSourceGenerator(codegen.SourceGenerator):
     def visit_Constant(self, node: qlast.Constant) -> None:
         if node.kind == qlast.ConstantKind.STRING:
             if not _NON_PRINTABLE_RE.search(node.value):
-                for d in ("'", '"', '$$'):
+                for d in ("'", '"'):
                     if d not in node.value:
-                        if '\\' in node.value and d != '$$':
+                        if '\\' in node.value:
                             self.write('r', d, node.value, d)
                         else:
                             self.write(d, node.value, d)
                         return
                 self.write(edgeql_quote.dollar_quote_literal(node.value))
                 return
-            self.write(repr(node.value))
+            # Python's repr() is not an EdgeQL literal: it uses \xNN for
+            # U+0080..U+00FF, which the lexer only allows for ASCII.
+            val = edgeql_quote.quote_literal(node.value)
+            self.write(_NON_PRINTABLE_RE.sub(
+                lambda m: '\\u{:04x}'.format(ord(m.group(0))), val))
         else:
             self.write(node.value)
 
